@@ -1206,6 +1206,35 @@ def _install(M):
             r *= n_
         return r
 
+    def _extremum(which):
+        def model(ex, a, k, l):
+            """numpy.amin / amax of a one-dimensional real array: a fresh value m with m <= (>=) every cell and m equal
+            to some cell (the array must be non-empty: obligation)"""
+            x = a[0]
+            if isinstance(x, (list, tuple)):
+                r = x[0]
+                for y in x[1:]:
+                    r = ite(compare("<" if which == "min" else ">", y, r), y, r)
+                return r
+            if not (isinstance(x, SymArr) and x.rank == 1 and x.dtype in ("real", "int")):
+                raise Unsupported("numpy.a%s of %r @%s" % (which, x, l))
+            n = x.shape[0]
+            ex.oblige("extremum-of-non-empty-array", compare(">=", n, 1), "precondition", l)
+            m = fresh("a" + which, z3.RealSort() if x.dtype == "real" else z3.IntSort())
+            i = fresh("i", z3.IntSort())
+            w = fresh("arg" + which, z3.IntSort())
+            snap = x.snapshot()
+            cell = snap.get([i])
+            rel = (m <= cell) if which == "min" else (m >= cell)
+            ex.assume(V.canon_quant([i], z3.Implies(z3.And(0 <= i, i < V.z3int(n)), rel)))
+            ex.assume(z3.And(0 <= w, w < V.z3int(n), snap.get([w]) == m))
+            return m
+        return model
+    for nm_ in ("numpy.amin", "numpy.min"):
+        M.table[nm_] = Builtin(nm_, _extremum("min"))
+    for nm_ in ("numpy.amax", "numpy.max"):
+        M.table[nm_] = Builtin(nm_, _extremum("max"))
+
     @reg("numpy.prod")
     def _nprod(ex, a, k, l):
         """product of the elements of a (small, concretely shaped) one-dimensional array or sequence"""
